@@ -7,7 +7,14 @@
   ca <idx> setprov <id> | delprov <id>                         CAOpSet/DeleteProviderState
   ca <idx> setboth <rcidx> <roots> <ccidx> <provider> <cluster> <tag>   CAOpSetRootsAndConfig
   ca <idx> incserial | badop
-  mgr <provider-state id | none>                               the provider the leader installed; answers the active root
+  mgr <provider-state id | none> <key> <cert> <match>                the provider the leader installed and whether its row holds a key / a signing certificate; answers the active root
+  render <kind;field;...>                                      id.URI().String() and ParseCertURI of it
+  cansign <cluster> <url>                                      ParseCertURI + SpiffeIDSigningForCluster(cluster).CanSign
+  restore                                                      FSM snapshot + restore; answers the tables
+  rate <k|none> / leader / clock <expired>                     stored CSRMaxPerSecond (key) / new CAManager / leader clock vs root expiry
+  swap                                                         switch between two independent systems (primary / secondary datacenter)
+  rotreq <new root id|none>                                    the roots+index the leader sends to install a new active root
+  prunereq <expired ids>                                       the roots+index pruneCARoots sends
   sign <mesh> <acl> <svcTable> <nodeTable> <uris> <nEmails> <dns> <ips>
        tables = name;bit,...   uris = scheme;host;path;rawpath;str,...
 -/
@@ -96,6 +103,10 @@ def errStr : Err → String
   | .noConfig => "no-config"
   | .noActiveRoot => "no-active-root"
   | .providerUninit => "provider-uninit"
+  | .rateLimited => "rate-limited"
+  | .rootExpired => "root-expired"
+  | .noSigningCert => "no-signing-cert"
+  | .keyMismatch => "key-mismatch"
 
 def idStr : Id → String
   | .service h ap ns dc svc => s!"service;{encB h};{encB ap};{encB ns};{encB dc};{encB svc}"
@@ -124,8 +135,70 @@ def tableCovers (svc node : List (Bytes × Bool)) (csr : Csr) : Bool :=
     | .error _ => true
   | _ => true
 
+/-- `render` operand: kind;field;… -/
+def parseIdTok (tok : String) : Option Id :=
+  match tok.splitOn ";" with
+  | ["service", h, ap, ns, dc, svc] => do
+      let h ← decB h; let ap ← decB ap; let ns ← decB ns; let dc ← decB dc; let svc ← decB svc
+      pure (.service h ap ns dc svc)
+  | ["agent", h, ap, dc, n] => do
+      let h ← decB h; let ap ← decB ap; let dc ← decB dc; let n ← decB n
+      pure (.agent h ap dc n)
+  | ["gateway", h, ap, dc] => do
+      let h ← decB h; let ap ← decB ap; let dc ← decB dc
+      pure (.gateway h ap dc)
+  | ["server", h, dc] => do
+      let h ← decB h; let dc ← decB dc
+      pure (.server h dc)
+  | ["signing", c, d] => do
+      let c ← decB c; let d ← decB d
+      pure (.signing c d)
+  | _ => none
+
+def parseResStr : Except PErr Id → String
+  | .ok id => idStr id
+  | .error .scheme => "err:scheme"
+  | .error .escape => "err:escape"
+  | .error .format => "err:format"
+
+/-- request roots in a canonical order: by id, inactive before active -/
+def reqRootsStr (rs : List ReqRoot) : String :=
+  encList ((sortByKey (fun r : ReqRoot => r.id ++ [if r.active then 1 else 0]) rs).map fun r =>
+    s!"{encB r.id};{encBool r.active}")
+
 def step (s : Sys) (toks : List String) : Sys × String :=
   match toks with
+  | ["render", idt] =>
+    match parseIdTok idt with
+    | some id => (s, s!"str={encB (uriOf id).str} parse={parseResStr (parseId (uriOf id))}")
+    | none => (s, "bad-op")
+  | ["cansign", cluster, ut] =>
+    match decB cluster, parseUrl ut with
+    | some cluster, some u =>
+      match parseId u with
+      | .ok id => (s, s!"{parseResStr (.ok id)} cansign={encBool (canSign cluster id)}")
+      | .error e => (s, parseResStr (.error e))
+    | _, _ => (s, "bad-op")
+  | ["restore"] =>
+    let ca' := restoreCa s.ca
+    ({ s with ca := ca' }, dumpState ca')
+  | ["rate", l] =>
+    match (if l == "none" then some none else l.toNat?.map some) with
+    | some l => ({ s with rate := l }, "ok")
+    | none => (s, "bad-op")
+  | ["leader"] => ({ s with limiter := none, rootExpired := false }, "ok")
+  | ["clock", e] =>
+    match decBool e with
+    | some e => ({ s with rootExpired := e }, "ok")
+    | none => (s, "bad-op")
+  | ["rotreq", n] =>
+    match (if n == "none" then some none else (decB n).map some) with
+    | some n => (s, s!"cidx={s.ca.rootsIdx} roots={reqRootsStr (rotationRoots s.ca.roots n)}")
+    | none => (s, "bad-op")
+  | ["prunereq", exp] =>
+    match (decList exp).mapM decB with
+    | some exp => (s, s!"cidx={s.ca.rootsIdx} roots={reqRootsStr (pruneRoots s.ca.roots (fun i => exp.contains i))}")
+    | none => (s, "bad-op")
   | ["new", dc] =>
     match decB dc with
     | some dc => ({ ca := {}, dc := dc, mgrProv := none }, "ok")
@@ -137,10 +210,11 @@ def step (s : Sys) (toks : List String) : Sys × String :=
       ({ s with ca := ca' }, s!"{resStr r} | {dumpState ca'}")
     | _, _ => (s, "bad-op")
   | ["regexps"] => (s, encList (regexpSources.map encS))
-  | ["mgr", p] =>
-    match (if p == "none" then some none else (decB p).map some) with
-    | some p => ({ s with mgrProv := p }, "active=" ++ encList ((activeRoots s.ca).map (encB ·.id)))
-    | none => (s, "bad-op")
+  | ["mgr", p, k, c, m] =>
+    match (if p == "none" then some none else (decB p).map some), decBool k, decBool c, decBool m with
+    | some p, some k, some c, some m =>
+      ({ s with mgrProv := p, provKey := k, provCert := c, provMatch := m }, "active=" ++ encList ((activeRoots s.ca).map (encB ·.id)))
+    | _, _, _, _ => (s, "bad-op")
   | ["sign", mesh, acl, svcT, nodeT, uris, nEmails, dns, ips] =>
     match decBool mesh, decBool acl, (decList svcT).mapM parseEntry, (decList nodeT).mapM parseEntry,
           (decList uris).mapM parseUrl, nEmails.toNat?, (decList dns).mapM decB, (decList ips).mapM decB with
@@ -153,10 +227,21 @@ def step (s : Sys) (toks : List String) : Sys × String :=
       match signStep s az csr with
       | (s', .ok c) =>
         (s', s!"ok ids={certIds c} uris={encList (c.uris.map (encB ·.str))} serial={c.serial} root={encB c.issuer} dns={encList (c.dns.map encB)} ips={encList (c.ips.map encB)} emails={c.emails} ca={encBool c.isCA} caops=incserial")
+      | (s', .error .keyMismatch) => (s', "err key-mismatch caops=incserial")
       | (s', .error e) => (s', s!"err {errStr e} caops=-")
     | _, _, _, _, _, _, _, _ => (s, "bad-op")
   | _ => (s, "bad-op")
 
-def engine : Engine := { State := Sys, init := {}, step := step }
+/-- two independent systems (a primary and a secondary datacenter); `swap` exchanges them -/
+structure St where
+  cur : Sys := {}
+  other : Sys := {}
+
+def step2 (st : St) (toks : List String) : St × String :=
+  match toks with
+  | ["swap"] => ({ cur := st.other, other := st.cur }, "ok")
+  | _ => let (s', out) := step st.cur toks; ({ st with cur := s' }, out)
+
+def engine : Engine := { State := St, init := {}, step := step2 }
 
 end CV.Engine.C12
